@@ -65,7 +65,7 @@ SPEC = {
         "vertical-align percentages when line-height is `normal` (strut of the font; with a number / length line-height the recorded result is audited against valign_percent, code 14); ex / ch inside non-modelled values (transform: translate(1ex))",
         "the ex/ch ratio cache is not a state of the document model: ex/ch are a pure function of the node's own font metrics and font size (justified by C04_ratio_cache_transparent over the separate model rc_get/rc_set/character_ratio, itself tied to pr.TextRatioCache by the ratio-cache cases), so any cache that changes a value is a disagreement",
         "custom properties (PropKey.Var) and var() resolution (C08)",
-        "StyleFor.Get's table adjustments (padding/margin reset on table boxes), ComputedStyle.Copy",
+        "StyleFor.Get's table adjustments (padding/margin reset on table boxes); Copy() of the ROOT style (the model's trees have one parentless node; copies of every other style object, anonymous ones included, are modelled: Css/DefaultingCopy.v)",
         "Gets made internally by the non-modelled computer functions (they only warm the cache)",
     ],
     "codes": {
@@ -84,7 +84,7 @@ SPEC = {
         "9": "Get panicked and so does the model: outside the hypotheses of C04_get_total (ill-typed value) or C04_get_total broken",
     },
     "theorems_for_kind": {
-        "doc": "C04_cache_transparent / C04_defaulting_equations / C04_get_total / C04_length_spec / C04_box_computers_spec (line-height %) / C04_font_size_relative_spec (font-size %) / C04_vertical_align_percent_spec / C04_length_font_metrics_spec (ex, ch) / C04_bleed_auto_spec",
+        "doc": "C04_cache_transparent / C04_cache_transparent_with_copies / C04_copy_computes_like_source (C src dst ops) / C04_anonymous_spec / C04_propagated_equations (text decorations of anonymous boxes) / C04_defaulting_equations / C04_get_total / C04_length_spec / C04_box_computers_spec (line-height %) / C04_font_size_relative_spec (font-size %) / C04_vertical_align_percent_spec / C04_length_font_metrics_spec (ex, ch) / C04_bleed_auto_spec",
         "corpus": "C04_cache_transparent / C04_get_spec / C04_get_total",
         "ratio-cache": "C04_ratio_cache_get_set / C04_ratio_cache_transparent",
         "build-panic": "C04_get_total",
@@ -92,10 +92,10 @@ SPEC = {
         "worker-hang": "C04_get_total (termination)",
         "tables": "tie of Generated/PropTables.v (C04_property_tables_spec, C04_unit_table_correct, C04_font_tables_spec)",
     },
-    "rule": "SplitMix64-seeded documents (random element tree depth <= 5, default HTML5 UA stylesheet, style attributes / type rules / class rules shared by several elements with em-rem-ex-ch lengths, percentages and translate() / pseudo-element rules / @page rules (marks crop|cross|both|none, bleed, size) declaring inherit, initial or validator-accepted explicit values for properties drawn from all of them; a percentage pool (150%, 50%, 33.3%, -20%, 0% ...) for every property whose grammar has a <percentage> (line-height, font-size, vertical-align, text-indent, widths / heights / margins / paddings / offsets, gaps, spacing, radii, transform-origin, background-position/size): in a quarter of the style attributes, a quarter of the class-rule declarations and 15% of all random lengths; two @font-face families mapped per document to Ahem or weasyprint.otf, font-family / font-size varied per element), each built after a twin document of the same process whose @font-face sources are exchanged; then a random history of Get calls (directed at declared, font-relative and page properties) and late constructions (page contexts, margin boxes, anonymous styles); the cascaded declarations are read before and after the history; one case per document; non-trivial = at least one cascaded declaration; distinct by seed",
+    "rule": "SplitMix64-seeded documents (random element tree depth <= 5, default HTML5 UA stylesheet, style attributes / type rules / class rules shared by several elements with em-rem-ex-ch lengths, percentages and translate() / pseudo-element rules / @page rules (marks crop|cross|both|none, bleed, size) declaring inherit, initial or validator-accepted explicit values for properties drawn from all of them; a percentage pool (150%, 50%, 33.3%, -20%, 0% ...) for every property whose grammar has a <percentage> (line-height, font-size, vertical-align, text-indent, widths / heights / margins / paddings / offsets, gaps, spacing, radii, transform-origin, background-position/size): in a quarter of the style attributes, a quarter of the class-rule declarations and 15% of all random lengths; two @font-face families mapped per document to Ahem or weasyprint.otf, font-family / font-size varied per element), each built after a twin document of the same process whose @font-face sources are exchanged; then a random history of Get calls (directed at declared, font-relative and page properties) and late constructions (page contexts, margin boxes, anonymous styles, the latter asked at once for text-decoration-line/-color/-style, page and inherited properties; text-decoration shorthand / longhands with non-initial colour and style on a fifth of the elements) and of Copy() calls on element / pseudo-element / page / anonymous styles at random points of the history (about 4% of the operations, preferring styles with em/rem/ex/ch/% declarations; Gets directed at the copy -- properties cached before the copy or not -- and at its source afterwards; the copy is a duplicate node of the model tree); the cascaded declarations are read before and after the history; one case per document; non-trivial = at least one cascaded declaration; distinct by seed",
 }
 MANIFEST = {
-    "text": "Coq theorems over a state-machine model of ComputedStyle/AnonymousStyle.Get with its per-style cache and of style construction: every well-formed history of constructions and Gets returns the cache-free computed value (C04_cache_transparent), which satisfies the CSS Cascade 4 section 7 defaulting equations (C04_defaulting_equations, propagated / anonymous variants), totality on well-typed trees incl. root, pseudo-elements, pages, anonymous boxes (C04_get_total; refuted for the code before the fixes), exact unit table, inherited / initial tables equal to the lists transcribed from CSS, em/rem/percent/keyword rules for lengths, font-size, font-weight, border widths, line-height (also at the level of computed: a percentage is the absolute length of the own font size and is inherited as that length), vertical-align percentages of the own line height (audit of the recorded result), display/float, ex/ch against the recorded x-height / 0-advance ratios of the style's own font and its own font size (C04_length_font_metrics_spec), bleed: auto against marks: crop (C04_bleed_auto_spec); tables regenerated from the source text on every run and audited entry by entry; float32 instance of the model compared with /repo on random real documents and random access histories; the typing hypotheses (wt_tree) are evaluated on every document",
+    "text": "Coq theorems over a state-machine model of ComputedStyle/AnonymousStyle.Get with its per-style cache and of style construction: every well-formed history of constructions and Gets returns the cache-free computed value (C04_cache_transparent), which satisfies the CSS Cascade 4 section 7 defaulting equations (C04_defaulting_equations, propagated / anonymous variants), copies made at any point of a history compute what their source computes (C04_cache_transparent_with_copies, C04_copy_computes_like_source), totality on well-typed trees incl. root, pseudo-elements, pages, anonymous boxes (C04_get_total; refuted for the code before the fixes), exact unit table, inherited / initial tables equal to the lists transcribed from CSS, em/rem/percent/keyword rules for lengths, font-size, font-weight, border widths, line-height (also at the level of computed: a percentage is the absolute length of the own font size and is inherited as that length), vertical-align percentages of the own line height (audit of the recorded result), display/float, ex/ch against the recorded x-height / 0-advance ratios of the style's own font and its own font size (C04_length_font_metrics_spec), bleed: auto against marks: crop (C04_bleed_auto_spec); tables regenerated from the source text on every run and audited entry by entry; float32 instance of the model compared with /repo on random real documents and random access histories; the typing hypotheses (wt_tree) are evaluated on every document",
     "note": "Trusted: Coq kernel (vm_compute), gen_c04 translator (cross-checked against runtime tables), Go harness + hook html/tree/verif_export_c04.go, F32 rounding model, the transcription of the CSS inherited list. Partial: computer functions for images/gradients/grid/content/transform, vertical-align % and var() substitution are inputs (oracle read on a separately built copy): only their defaulting/inheritance/caching is checked; font metrics (x-height, 0-advance ratios) are recorded inputs measured without cache and checked against the documented metrics of Ahem / weasyprint.otf; the cascaded declarations must be unchanged after the history (code 11).",
     "technique": "Coq proof over executable state-machine model + source-to-Coq table translator + vm_compute correspondence with the Go implementation",
 }
